@@ -21,6 +21,13 @@ PATCHED_STRING_SPACE = True
 #   False: the generator asks for a value format only WITH a destination (cases "ts 24 1 ...").
 #   True:  it also asks without one (cases "ts 24 0 ...": same answer as performing, no fault).
 PATCHED_VALFMT_QUERY = True
+# docs/C07_null_raw_copy.diff (OPEN, not committed): mpt_value_convert's raw copy of a value of the very same type does
+#   memcpy(dest, value._addr, size) also for a value WITHOUT data address (the converters read such a value as 0).  Reached by
+#   a 'c' value without address asked for 'c' with a destination (the converter refuses 0: no graphic character).
+#   False: the generator leaves exactly the cases `V|C c 99 <hd> N` and `I c 99 <hd> <0|2> N` out: with a destination the
+#          code (and the model) faults, without one the query succeeds although performing does not (same defect).
+#   True:  they run (0 stored), driver argument "nullcopy-patched".
+PATCHED_NULL_COPY = True
 
 
 # Axioms that may appear in the Print Assumptions output of C07 (none is declared by this development: all four come
@@ -119,7 +126,8 @@ class C07(DiffProperty):
             "identifier, stub convertable / metatype pointer / metatype reference incl. null pointers; T: mpt_type_traits) + target type + destination "
             "yes/no + a batch of source values, texts or target codes; every value/text/code is one conversion. "
             "Quick: EVERY value of the 8 and 16 bit source types x 13 scalar targets ('c','l', integers, floats) + 9 odd type codes x with/without "
-            "destination through the direct converters, every 8 bit value and boundary sets through value_convert/iterator_consume; for 32/64 bit and "
+            "destination through the direct converters, every 8 bit value and boundary sets through value_convert/iterator_consume; every D/V/C/I header also "
+            "with a source WITHOUT data address (value N: null `from` / value._addr == 0; own type, other types, vectors, odd codes); for 32/64 bit and "
             "float sources the +-2 neighbourhood of every target limit, 2^k+-1 and random values (float sources also through value_convert / "
             "iterator_consume); 12 source types x 18 targets x 4 iterator behaviours; 26 non-number source kinds x 55 target codes; numerals from a grammar "
             "(white space x sign x 0x/0X/0 prefix x magnitudes around every limit, above 2^64 x trailing text; malformed pieces; NULL) x bases x all targets "
@@ -138,7 +146,10 @@ class C07(DiffProperty):
                 "NOT modelled, executed and compared with the specification only: mpt_valfmt_get behind mpt_convert_string(.., TypeValFmt, ..) (no fault; asking without "
                 "destination = performing, once docs/C07_valfmt_query.diff is committed); the objects behind convertable / metatype sources are harness stubs "
                 "(answer 'i' with 77); mpt_data_convert_array (TypeArray / TypeBufferPtr sources) and mpt_data_tostring for arrays are not driven here (C04/C15); "
-                "a value without address (value._addr == 0) is outside the contract (the dispatcher copies from it)")
+                "a NUMBER value without data address (value._addr == 0 / null `from`, value token N of the D V C I cases) denotes 0, as the converters read it: "
+                "value_convert_a / value_convert_flt_a / iterator_consume_a of ConvDispatch.v, every source type x every target incl. its own type x destination yes/no "
+                "on every run; the raw copy of the dispatcher reads through the null address ('c' asked for 'c': docs/C07_null_raw_copy.diff OPEN, switch PATCHED_NULL_COPY); "
+                "non-number sources without address (cvn, mtn) are still not asked for a raw copy of themselves (same patch)")
     trusted = ["harness/c07_conv.c reads the destination back as the target type from an exact-size heap block pre-filled with 0xA5/0x5A "
                "(W cases: 64 bytes, two runs with different fill tell exactly which bytes were written; the harness names what they are: the source's bytes, "
                "{source address, length}, the text pointer, the stub's answer)",
@@ -177,6 +188,9 @@ class C07(DiffProperty):
                   "_patched_always_stores, _patch_changes_only_zero, _key_inside_text); the optional float range: accepted => not below / above the bounds and all unranged "
                   "guarantees, outside => BadValue, query = perform, and the comparison is the order of the real numbers denoted "
                   "(C07_text_float_range_accepts/_refuses/_query_same, REAL C07_float_gt_is_real_order, C07_text_float_range_is_real_interval); "
+                  "values without data address (6 theorems C07_null_*): as patched such a value IS the value 0 through mpt_value_convert and mpt_iterator_consume (all theorems above "
+                  "apply), the query never touches the address, unpatched the only other outcome is a fault of the raw copy of the own type into a destination after the converter "
+                  "refused (C07_null_value_cases; of the nine scalar codes only 'c', Example C07_ex_null_value), floating values are 0.0 and never fault, patched or not; "
                   "the model is tied to the code on every run by differential execution (exhaustive for 8/16 bit sources) under ASan/UBSan")
     level_note = ("trusted: Coq kernel; hand transcription of the converters (validated by the correspondence run, not verified); extraction and OCaml driver; "
                   "harness; that the FPU implements IEEE-754 round-to-nearest-even (the proved model is compared bit by bit with the hardware in every run, incl. "
@@ -185,8 +199,9 @@ class C07(DiffProperty):
                   "a NaN value passes any range (C comparison, observation in docs/notes_C07.md); text -> 'c' and query = perform for mpt_value_convert are "
                   "correspondence/executable-spec only; mpt_valfmt_get and the objects behind interface sources are executed, not modelled (specification-level comparison: no fault, "
                   "query = perform); the traits table of ConvDispatch.v is compared with mpt_type_traits on every run (T case), not proved. "
-                  "Both patches of docs/C07_*.diff are committed in /repo (4ff2a89 white-space-only text, eb298e3 value format query). "
-                  "49 theorems are closed under the global context; the 9 theorems that mention real numbers (Flocq's round) depend on the standard-library axioms "
+                  "Two patches of docs/C07_*.diff are committed in /repo (4ff2a89 white-space-only text, eb298e3 value format query); docs/C07_null_raw_copy.diff is OPEN "
+                  "(PATCHED_NULL_COPY = False keeps `V|C c 99 <hd> N` and `I c 99 <hd> <0|2> N` out; replay docs/C07_replay_null_raw_copy.json). "
+                  "55 theorems are closed under the global context; the 9 theorems that mention real numbers (Flocq's round) depend on the standard-library axioms "
                   "ClassicalDedekindReals.sig_forall_dec, ClassicalDedekindReals.sig_not_dec, FunctionalExtensionality.functional_extensionality_dep and Classical_Prop.classic "
                   "(no axiom is declared by this development; the Z-only theorem C07_float_round_nearest_even_Z states nearest-even without them).")
     technique = ("Coq case analysis + lia/nia over Z on a transcribed mechanism model (incl. a Gallina strtoimax/strtoumax and a dyadic IEEE rounding), "
@@ -200,7 +215,8 @@ class C07(DiffProperty):
         ided = ["c%d %s" % (i, c) for i, c in enumerate(cases)]
         I, e1 = vcheck.run_cases(hx, ided, workdir, "impl" + tagsuffix, env=self.harness_env, args=self.harness_args)
         M, e2 = vcheck.run_cases(mx, ided, workdir, "model" + tagsuffix,
-                                 args=["space-patched"] if PATCHED_STRING_SPACE else ["space-unpatched"])
+                                 args=["space-patched" if PATCHED_STRING_SPACE else "space-unpatched",
+                                       "nullcopy-patched" if PATCHED_NULL_COPY else "nullcopy-unpatched"])
         res = []
         for i, c in enumerate(cases):
             k = "c%d" % i
@@ -266,6 +282,8 @@ class C07(DiffProperty):
             return
         if n == 1:
             v = ops[0][0]
+            if v == "N":
+                return                      # a value without address: nothing smaller
             if hdr[0] in ("D", "V", "C") and hdr[1] not in "fde":
                 x = int(v)
                 for y in (0, 1, -1, x // 2, x // 16, x - 1 if x > 0 else x + 1, 127, 128, 255, 256, 32767, 32768, 65535, 65536):
@@ -318,9 +336,24 @@ class C07(DiffProperty):
     # ------------------------------------------------------------------ generators
     def batches(self, hdr, vals):
         out = []
+        if hdr[0] in ("D", "V", "C", "I") and not self.null_copy_case(hdr):
+            # every value entry point also gets a source WITHOUT data address ("N": null `from` / value._addr == 0), first in
+            # the batch: for the very same type, other types, vectors, odd codes, with and without destination
+            vals = ["N"] + list(vals)
         for i in range(0, len(vals), self.BATCH):
             out.append(" ".join(hdr + [str(v) for v in vals[i:i + self.BATCH]]))
         return out
+
+    @staticmethod
+    def null_copy_case(hdr):
+        """the cases PATCHED_NULL_COPY keeps out while docs/C07_null_raw_copy.diff is open"""
+        if PATCHED_NULL_COPY:
+            return False
+        if hdr[0] in ("V", "C"):
+            return hdr[1:3] == ["c", "99"]
+        if hdr[0] == "I":
+            return hdr[1:3] == ["c", "99"] and hdr[4] in ("0", "2")
+        return False
 
     def values_for(self, rng, s, nrand):
         lo, hi = SRC_RANGE[s]
